@@ -85,6 +85,13 @@ PROPS["C13"] = dict(
     harness=["impl"],
 )
 
+PROPS["C14"] = dict(
+    modules=["Proofs.C14"],
+    theorems=["Goflow.C14.key_function", "Goflow.C14.no_key"],
+    generators=[dict(name="C14", quick=42, thorough=1260)],
+    harness=["impl"],
+)
+
 PROPS["C16"] = dict(
     modules=["Proofs.C16", "Proofs.Findings.C16"],
     theorems=["Goflow.C16.inv_init", "Goflow.C16.inv_step", "Goflow.C16.inv_run", "Goflow.C16.publish_once",
